@@ -89,7 +89,11 @@ def run_c20(tape, r, tier, sandbox):
             pad = '# ' + 'padding ' * 10 + '\n'
             text = pad * (4200 // len(pad) + 1) + text
             r.probes['robots_big'] += 1
-        robots[o.key()] = {'mode': mode, 'text': text, 'k': tape.between(1, 2, 'rb.5xx.k'), 'exchanges': [], 'fetches': 0}
+        robots[o.key()] = {'mode': mode, 'text': text, 'k': tape.between(1, 2, 'rb.5xx.k'), 'exchanges': [], 'fetches': 0,
+                           # bytes that are not UTF-8 somewhere in the file (a comment in a legacy encoding): the rules keep their meaning
+                           'raw_prefix': b'# robots.txt for caf\xe9 and \xfcber (legacy comment)\n' if tape.chance(1, 6, 'rb.legacy_bytes') else b''}
+        if robots[o.key()]['raw_prefix']:
+            r.probes['robots_with_non_utf8_bytes'] += 1
         r.probes.update({'robots_404': int(mode == '404'), 'robots_5xx': int(mode.startswith('5xx')), 'robots_redirect': int(mode == 'redirect')})
     # the main origin's robots.txt may live on another origin (redirect across origins): the rules are the main origin's, the
     # serving origin keeps its own robots.txt
@@ -155,10 +159,10 @@ def run_c20(tape, r, tier, sandbox):
                     server.send(conn, 301, 'Moved', [('Location', loc), ('Content-Type', 'text/html')], body)
                     ex['status'] = 301
                 else:
-                    server.send(conn, 200, 'OK', [('Content-Type', 'text/plain')], st['text'].encode('utf-8'))
+                    server.send(conn, 200, 'OK', [('Content-Type', 'text/plain')], st['raw_prefix'] + st['text'].encode('utf-8'))
                     ex['status'] = 200
             else:
-                server.send(conn, 200, 'OK', [('Content-Type', 'text/plain')], st['text'].encode('utf-8'))
+                server.send(conn, 200, 'OK', [('Content-Type', 'text/plain')], st['raw_prefix'] + st['text'].encode('utf-8'))
                 ex['status'] = 200
             ex['done_at'] = max(conn._cursor, h.loop.time())
         for o in site.origins:
@@ -171,7 +175,7 @@ def run_c20(tape, r, tier, sandbox):
                 entry['robots'] = True
                 ex = {'t': entry['t'], 'target': entry['target'], 'status': 200}
                 st['exchanges'].append(ex)
-                server.send(conn, 200, 'OK', [('Content-Type', 'text/plain')], st['text'].encode('utf-8'))
+                server.send(conn, 200, 'OK', [('Content-Type', 'text/plain')], st['raw_prefix'] + st['text'].encode('utf-8'))
                 ex['done_at'] = max(conn._cursor, h.loop.time())
             server.behaviour[(foreign_home.key(), '/robots-of-site.txt')] = elsewhere
     out = crawl.run_app(tape, r, site, argv, concurrency, sandbox, setup=setup)
